@@ -145,6 +145,11 @@ pub fn check(ctx: &mut Ctx) {
         } else {
             gen::json_input(&mut r, rows, &gen::DocCfg { key_domain: 3, numeric_only: false }, 5)
         };
+        // a third of the inputs carry no JSON null: then a null cell of a table built by a sort
+        // over raw rows can only be an ABSENT cell, and the stage-by-stage oracle below stays sound
+        // on heterogeneous rows (see the null rule there)
+        let input = if r.chance(35) { String::from_utf8_lossy(&input).replace("null", "7").into_bytes() } else { input };
+        let null_free_input = !String::from_utf8_lossy(&input).contains("null");
         let key = ckey(&full, &input);
         let info = serde_json::json!({"query": full, "input": String::from_utf8_lossy(&input)});
 
@@ -172,7 +177,7 @@ pub fn check(ctx: &mut Ctx) {
             ctx.case("stagewise", "", "skip", serde_json::json!({"why": "result not determined (model marks the case unmodelled)"}));
             continue;
         }
-        let (mid, got) = match (rows_of(&pfx.stdout, pfx_table, false), rows_of(&c.imp.stdout, full_table, true)) {
+        let (mut mid, got) = match (rows_of(&pfx.stdout, pfx_table, false), rows_of(&c.imp.stdout, full_table, true)) {
             (Some(a), Some(b)) => (a, b),
             _ => continue,
         };
@@ -180,9 +185,16 @@ pub fn check(ctx: &mut Ctx) {
         // strings that look like numbers) would make this oracle unsound: keep to int/string/bool data
         let has_null = |j: &J| matches!(j, J::Obj(kvs) if kvs.iter().any(|kv| kv.1 == J::Null));
         if pfx_table && mid.iter().any(has_null) {
-            // a printed table cannot tell an absent cell from a None cell: the re-read would differ
-            ctx.case("stagewise", "", "skip", serde_json::json!({"why": "null cell in an intermediate table (absent vs None not recoverable from JSON)"}));
-            continue;
+            let prefix_makes_none = stages[..stages.len() - 1].iter().any(|s| s.1 == Kind::Agg || s.0.contains("null") || s.0.contains("if("));
+            if null_free_input && !prefix_makes_none {
+                // no None value can exist: every null cell is an absent cell → re-feed without it
+                mid = rows_of(&pfx.stdout, pfx_table, true).unwrap_or_default();
+                ctx.count("stagewise:heterogeneous-table-refed");
+            } else {
+                // a printed table cannot tell an absent cell from a None cell: the re-read would differ
+                ctx.case("stagewise", "", "skip", serde_json::json!({"why": "null cell in an intermediate table (absent vs None not recoverable from JSON)"}));
+                continue;
+            }
         }
         if mid.iter().any(has_float) || got.iter().any(has_float) {
             ctx.case("stagewise", "", "skip", serde_json::json!({"why": "integral or long floats in intermediate rows (JSON round trip not exact)"}));
